@@ -55,6 +55,8 @@ def build_elem(e, lit_as='str'):
         return ast.Name(id=s, ctx=ast.Load())
     if k == 'any':
         return ...
+    if k == 'miss':
+        return M.Mexpr(id=M.M(**{tname(9): ...}), zz_no_such_field=1) if lit_as == 'str' else M.MAST(zz_no_such_field=M.M(**{tname(9): ...}))
     if k == 'cap':
         return M.M(**{tname(e[1]): build_elem(e[2], lit_as)})
     if k == 'ref':
@@ -160,6 +162,8 @@ def enc_val(v, index_of):
                 e = s + 1
             out += [s, e] + enc_dict(m.tags, index_of)
         return [2] + out
+    if isinstance(v, str):
+        return [3, len(v)]          # a captured identifier string (only a leaked capture can be one here)
     i = index_of(v)
     return [0, i, _letter(v)]
 
@@ -204,7 +208,8 @@ def q(mn, mx, g=True, tag=None, st=()):
 
 ATOMS = [['lit', 0], ['lit', 1], ['any'], ['cap', 0, ['any']], ['cap', 0, ['lit', 0]], ['ref', 0],
          ['and2', None, ['any'], 1, ['cap', 0, ['any']]],            # MAND(..., t1=M(t0=...)): a capture inside a keyword member
-         ['or2', 1, ['cap', 0, ['lit', 0]], 2, ['lit', 1]]]           # MOR(t1=M(t0='a'), t2='b')
+         ['or2', 1, ['cap', 0, ['lit', 0]], 2, ['lit', 1]],           # MOR(t1=M(t0='a'), t2='b')
+         ['or2', None, ['miss'], 1, ['cap', 0, ['any']]]]             # MOR(<node pattern with a missing field>, t1=M(t0=...))
 QUANTS = [(0, None), (1, None), (0, 1), (1, 2), (0, 2), (2, 2), (2, 3), (2, None)]
 QUANTS_CORE = [(0, None), (1, None), (0, 1), (1, 2)]
 SUB_BODIES = [
@@ -259,6 +264,8 @@ def valid_item(it):
 
 def rand_elem(rng, depth=0):
     c = rng.random()
+    if c < 0.04:
+        return ['miss']
     if c < 0.3:
         return ['lit', rng.randrange(3)]
     if c < 0.45:
@@ -355,6 +362,8 @@ def to_regex(ps):
             return LETTERS[e[1]]
         if k == 'any':
             return '.'
+        if k == 'miss':
+            return '(?!)'
         if k == 'cap':
             t = e[1]
             if t in caps:
@@ -498,6 +507,8 @@ def decode_top(enc):
             return ('elem', (rd(), rd()))
         if k == 1:
             return ('static', rd())
+        if k == 3:
+            return ('leaked-str', rd())
         n = rd()
         ents = []
         for _ in range(n):
@@ -521,6 +532,8 @@ def decode_top(enc):
             out['elem'][t] = v
         elif k == 'static':
             out['static'][t] = v
+        elif k == 'leaked-str':
+            out['elem'][t] = ('leaked', v)
         else:
             out['span'][t] = (v[0][0], v[-1][1]) if v else None
     return out
